@@ -118,6 +118,11 @@ def b_frozenset(ex, st, node, args, kw):
     if isinstance(x, VSet):
         return x
     if isinstance(x, VSeq):
+        simp = x.term
+        if z3.is_app(simp) and simp.decl().kind() == z3.Z3_OP_SEQ_UNIT and x.elem is S.Str:
+            t = z3.Store(S.EMPTY_SET, simp.children()[0], True)
+            st.facts.append(S.card(t) == 1)
+            return VSet(t)
         return set_of_seq(ex, st, x)
     if isinstance(x, (VTup, VPyList)):
         t = S.EMPTY_SET
@@ -260,7 +265,20 @@ def b_Ballot(ex, st, node, args, kw):
     return mk_ballot(ex, args, kw, st, node)
 
 
+def b_bool(ex, st, node, args, kw):
+    return VBool(ex.truth(args[0]))
+
+
+def b_tb_value(ex, st, node, args, kw):
+    """contract language: the resolution recorded in a state's (single-entry) tiebreak record"""
+    (x,) = args
+    from .sorts import VTBDict
+    tb = ex.getattr(x, "tiebreaks", st, node) if not isinstance(x, VTBDict) else x
+    return VSeq(tb.val, S.CSet)
+
+
 BUILTINS = {
+    "bool": b_bool, "tb_value": b_tb_value,
     "Ballot": b_Ballot,
     "reversed_seq": b_reversed_seq,
     "dsum": b_dsum,
